@@ -281,4 +281,11 @@ theorem getrange_clamp_as_coded (s e n : BitVec 64) (hn : 0 ≤ n.toInt) :
 theorem getrange_clamp_maxint :
     Go.getRangeClamp 0#64 (BitVec.ofInt 64 9223372036854775807) 11#64 = (0#64, 10#64) := by decide
 
+/-- The size test of `fnSetRange` (the `if` that answers "string exceeds maximum allowed size (512MB)"), translated on
+    this run with `len(value)` as a variable, is the test of the model's `cmdSetRange` for every int64 offset and every
+    length below 2^62: Go's wrapped `offset + len` is the true sum whenever the first disjunct has not fired. -/
+theorem setrange_size_guard_as_coded (o l : BitVec 64) (hl : 0 ≤ l.toInt) (hl2 : l.toInt < 4611686018427387904) :
+    Go.setrangeSizeGuard o l = (decide (o.toInt > hugeAlloc) || decide (o.toInt + l.toInt > hugeAlloc)) :=
+  go_setrangeSizeGuard o l hl hl2
+
 end RedisEmu
